@@ -1,0 +1,10 @@
+//go:build verif
+
+package shoot
+
+// Exported wrappers of unexported helpers, for the verification probe only.
+
+func VerifFindCmdLine(doc, cmdline string) bool            { return findCmdLine(doc, cmdline) }
+func VerifIsAllInOneFile(file string) (bool, error)        { return isAllInOneFile(file) }
+func VerifIsGeneratedBy(file, subCmd string) (bool, error) { return isGeneratedBy(file, subCmd) }
+func VerifFirstLine(file string) (string, error)           { return firstLine(file) }
